@@ -486,8 +486,8 @@ def build():
         'not_applicable': na,
         'notes': 'Static analysis only: no repo code is imported or executed by any check; exit 0 '
                  '= all obligations discharged, exit 1 = VIOLATION lines, exit 2 = ANALYSIS-ERROR '
-                 '(cannot conclude; never a violation). Tiers: quick = all rules; thorough = deeper domains plus a mutation-adequacy audit recorded in the evidence (DESIGN.md 8.8). Fifteen genuine defects found by the rules '
-                 'were repaired by fix: commits in /repo (F1-F15); one is recorded rather than '
+                 '(cannot conclude; never a violation). Tiers: quick = all rules; thorough = deeper domains plus a mutation-adequacy audit recorded in the evidence (DESIGN.md 8.8). Sixteen genuine defects found by the rules '
+                 'were repaired by fix: commits in /repo (F1-F16); one is recorded rather than '
                  'repaired (K1, C03: a KNOWN-FINDING line, exit 0). All are listed in '
                  '/verif/known_findings.json (DESIGN.md 4.1, 8.2).',
     }
